@@ -114,7 +114,16 @@ fn cq(x: &mut Exec) -> Res {
     let evs: Vec<usize> = (0..arms).map(|_| x.rng.below(4) as usize).collect();
     let poller_co = x.rng.chance(1, 2);
     let panic_arm = if x.rng.chance(1, 3) { Some(x.rng.below(arms as u64) as usize) } else { None };
-    let remove_arm = if panic_arm.is_none() && x.rng.chance(1, 4) { Some(x.rng.below(arms as u64) as usize) } else { None };
+    // a removed (cancelled) arm, alone or - with two arms or more - *before* the real panic of another arm: the Cancel
+    // of the removed arm must not make the queue deaf to the panic that follows
+    let remove_arm = if panic_arm.is_none() && x.rng.chance(1, 4) {
+        Some(x.rng.below(arms as u64) as usize)
+    } else if panic_arm.is_some() && arms >= 2 && x.rng.chance(1, 3) {
+        Some((panic_arm.unwrap() + 1 + x.rng.below(arms as u64 - 1) as usize) % arms)
+    } else {
+        None
+    };
+    let removed_seen = Arc::new(AtomicUsize::new(0));
     let seeds: Vec<u64> = (0..arms).map(|_| x.rng.next()).collect();
     let poll_ms = x.rng.range(2, 3);
     x.timeout_used(Duration::from_millis(poll_ms));
@@ -124,13 +133,14 @@ fn cq(x: &mut Exec) -> Res {
     // "forever" mode: polls without a timeout while another arm stays alive and silent after its events: only the
     // wake-up that comes with the panicking arm's final event can end the scenario (a poll time-out would paper over
     // a missing wake-up)
-    let forever = panic_arm.is_some() && arms >= 2 && x.rng.chance(1, 2);
+    let forever = panic_arm.is_some() && remove_arm.is_none() && arms >= 2 && x.rng.chance(1, 2);
     let silent_arm = if forever { Some((panic_arm.unwrap() + 1) % arms) } else { None };
-    if forever {
+    if forever || (panic_arm.is_some() && remove_arm.is_some()) {
         early_exit = None;
     }
     let err = Arc::new(std::sync::Mutex::new(None::<String>));
     let (e2, evs2) = (err.clone(), evs.clone());
+    let rs = removed_seen.clone();
     x.spawn("poller", poller_co, move |a| {
         let ended = Arc::new(AtomicUsize::new(0));
         let tops: Arc<Vec<AtomicUsize>> = Arc::new((0..arms).map(|_| AtomicUsize::new(0)).collect());
@@ -149,6 +159,8 @@ fn cq(x: &mut Exec) -> Res {
                     let mut r = Rng::new(seeds[arm]);
                     let pa = panic_arm == Some(arm);
                     let rm = remove_arm == Some(arm);
+                    let wait_removed = pa && remove_arm.is_some();
+                    let rs2 = rs.clone();
                     // the silent arm of the forever mode blocks on a channel nobody sends to: no timer, no hook
                     // hit, so a poller that is not woken leaves the runtime quiescent
                     let quiet = if silent_arm == Some(arm) { Some(quiet_rx.take().unwrap()) } else { None };
@@ -165,6 +177,13 @@ fn cq(x: &mut Exec) -> Res {
                             tops[arm].fetch_add(1, SeqCst);
                             es.send(j);
                             bots[arm].fetch_add(1, SeqCst);
+                        }
+                        if wait_removed {
+                            // the real panic comes after the poller has removed the other arm and polled again
+                            let t0 = Instant::now();
+                            while rs2.load(SeqCst) == 0 && t0.elapsed() < Duration::from_secs(5) {
+                                coroutine::sleep(Duration::from_micros(200));
+                            }
                         }
                         if pa {
                             // give the poller time to go to sleep again: the final event of a panicking arm has
@@ -197,6 +216,10 @@ fn cq(x: &mut Exec) -> Res {
                             if let Some(s) = sels[rmv].take() {
                                 s.remove();
                             }
+                        }
+                        if polls == 4 {
+                            // two polls after the removal: its Done event has been through the queue
+                            rs.store(1, SeqCst);
                         }
                     }
                     let t0 = Instant::now();
